@@ -91,6 +91,9 @@ def run_case(ctx, name, params):
         ctx.count("runs")
         wit = lambda extra=None: {"algo": algo, "N": N, "G": G, "n": setup["n"], "m": setup["m"], "seed": setup["seed"],
                                   "failure_rate": fail_rate, "constrained": setup["constrained"], "extra": extra}
+        if isinstance(err, insitu.RunTimeout):
+            ctx.count("runs_stopped_by_wall_clock_guard")
+            return
         if err is not None:
             ctx.violation("run/%s/exception" % algo, "%s run raised %r" % (algo, err), wit({"traceback": getattr(err, "_tb", "")[-600:]}))
             return
